@@ -2,25 +2,26 @@ package main
 
 import (
 	"fmt"
+	"go/token"
 	"strings"
 
 	"golang.org/x/tools/go/ssa"
 )
 
 const (
-	kUpdVerify   = "revocation.(*Update).Verify"
-	kSaccVerify  = "revocation.(*SignedAccumulator).UnmarshalVerify"
-	kELVerify    = "revocation.(*EventList).Verify"
-	kHashEquals  = "revocation.hashEquals"
-	kHashEqual   = "revocation.(Hash).Equal"
-	kHashAlg     = "revocation.(Hash).Algorithm"
-	kSignedUV    = "signed.UnmarshalVerify"
-	kSignedVer   = "signed.Verify"
-	saccD        = "<revocation.SignedAccumulator>"
-	elD          = "<revocation.EventList>"
-	kPrepend     = "revocation.(*Update).Prepend"
-	kHashUsing   = "revocation.hashUsingAlg"
-	kELUncomp    = "revocation.(*EventList).uncompress"
+	kUpdVerify  = "revocation.(*Update).Verify"
+	kSaccVerify = "revocation.(*SignedAccumulator).UnmarshalVerify"
+	kELVerify   = "revocation.(*EventList).Verify"
+	kHashEquals = "revocation.hashEquals"
+	kHashEqual  = "revocation.(Hash).Equal"
+	kHashAlg    = "revocation.(Hash).Algorithm"
+	kSignedUV   = "signed.UnmarshalVerify"
+	kSignedVer  = "signed.Verify"
+	saccD       = "<revocation.SignedAccumulator>"
+	elD         = "<revocation.EventList>"
+	kPrepend    = "revocation.(*Update).Prepend"
+	kHashUsing  = "revocation.hashUsingAlg"
+	kELUncomp   = "revocation.(*EventList).uncompress"
 )
 
 func init() {
@@ -108,7 +109,18 @@ func init() {
 						if c == nil || !calleeIs(c, kELVerify) || a.Want != Nil {
 							return false
 						}
-						return strings.HasPrefix(desc(callArgs(c)[0]), "call:revocation.NewEventList(") && strings.HasSuffix(desc(callArgs(c)[1]), ".SignedAccumulator.Accumulator")
+						if !(strings.HasPrefix(desc(callArgs(c)[0]), "call:revocation.NewEventList(") && strings.HasSuffix(desc(callArgs(c)[1]), ".SignedAccumulator.Accumulator")) {
+							return false
+						}
+						// ... and the list that is verified is the merged one: a fresh list (no memo of its own)
+						// over a slice that, at this call, holds the prepended events. A list the caller handed
+						// in may arrive pre-marked as verified (decoding, FlattenEventLists), and the receiver's
+						// own tail verified on its own says nothing about the junction and the older events.
+						nl, isNL := siteOf(callArgs(c)[0]).(*ssa.Call)
+						if !isNL || len(callArgs(nl)) == 0 || len(fn.Params) < 2 {
+							return true
+						}
+						return sliceHoldsParamAt(callArgs(nl)[0], fn.Params[1], nl, 0)
 					}}
 					r := q.MustReach(fn, st)
 					R.decide("C10.f", kPrepend+":verified-before-commit", "the receiver is replaced only after the merged chain verified", r.Holds, r.Path, P.Pos(st.Pos()))
@@ -117,7 +129,9 @@ func init() {
 				}
 			}},
 		Rule{ID: "C10.i", Explain: "aliasing discipline: verifying leaves update messages, events and accumulators unchanged - no function mutates in place a big.Int it reached through revocation.Update / revocation.Event / revocation.EventList / revocation.SignedAccumulator / revocation.Accumulator (math/big mutators write their receiver), except the tabled merge/refresh functions.",
-			Run: func(P *Program, R *Report) { inPlaceDisciplineRule(P, R, "C10.i", "revocation.Update", "revocation.Event", "revocation.EventList", "revocation.SignedAccumulator", "revocation.Accumulator") }},
+			Run: func(P *Program, R *Report) {
+				inPlaceDisciplineRule(P, R, "C10.i", "revocation.Update", "revocation.Event", "revocation.EventList", "revocation.SignedAccumulator", "revocation.Accumulator")
+			}},
 		Rule{ID: "C10.j", Explain: "no unauthenticated message changes or is acknowledged by a witness: Witness.Update returns nil only after update.Verify(pk) returned nil - on every path, also those that leave U untouched (same index, no events, older update).",
 			Run: func(P *Program, R *Report) {
 				fn := mustFunc(P, R, "C10.j", "revocation.(*Witness).Update")
@@ -134,10 +148,97 @@ func init() {
 		Rule{ID: "C10.g", Explain: "the verified memo of an event list is set only by Verify after all tests, by uncompress (which recomputes indices and parent hashes) and by FlattenEventLists; uncompress derives Index and ParentHash of every event after the first from its predecessor.",
 			Run: func(P *Program, R *Report) { verifiedMemoRule(P, R) }},
 		Rule{ID: "C10.l", Explain: "no verification failure of an update, accumulator or event list is dropped (revocation/api.go) (same rule as C08.g: the error a call returns has a use - a nil test or a return - before it is overwritten, shadowed or left behind).",
-			Run: func(P *Program, R *Report) { errorResultsUsedRule(P, R, "C10.l", inFiles(P, "revocation/api.go"), nil, 15) }},
+			Run: func(P *Program, R *Report) {
+				errorResultsUsedRule(P, R, "C10.l", inFiles(P, "revocation/api.go"), nil, 15)
+			}},
 		Rule{ID: "C10.m", Explain: "an update is authenticated every time it is decoded: the decoders of Update and EventList start from a zero-valued intermediate value (same rule as C18.n) - a recycled SignedAccumulator keeps the accumulator it verified before and UnmarshalVerify returns that memo without looking at the new signature, counter or data.",
 			Run: func(P *Program, R *Report) { freshDecodeTargetRule(P, R, "C10.m") }},
 	)
+}
+
+// sliceHoldsParamAt: does the slice v, as it is when instruction `at` executes, hold elements taken from
+// (a field of) param? Operand walk; a load of a field of a local object is resolved to the latest store into
+// that field of the same object that dominates `at`. Only definite shapes answer no (a load rooted in another
+// parameter, a field whose latest dominating store does not hold param's elements); shapes the walk does not
+// know (helpers, make+copy) answer yes, so that a rewritten merge is not reported.
+func sliceHoldsParamAt(v ssa.Value, param *ssa.Parameter, at ssa.Instruction, depth int) bool {
+	if depth > 12 {
+		return true
+	}
+	switch x := v.(type) {
+	case *ssa.Parameter:
+		return x == param
+	case *ssa.Slice:
+		return sliceHoldsParamAt(x.X, param, at, depth+1)
+	case *ssa.ChangeType:
+		return sliceHoldsParamAt(x.X, param, at, depth+1)
+	case *ssa.Phi:
+		for _, e := range x.Edges {
+			if !sliceHoldsParamAt(e, param, at, depth+1) {
+				return false
+			}
+		}
+		return true
+	case *ssa.Call:
+		if isCallTo(x, "builtin:append") {
+			for _, a := range callArgs(x) {
+				if sliceHoldsParamAt(a, param, x, depth+1) {
+					return true
+				}
+			}
+			return false
+		}
+		return true
+	case *ssa.UnOp:
+		if x.Op != token.MUL {
+			return true
+		}
+		root := rootOfAddr(x.X)
+		if p, isP := root.(*ssa.Parameter); isP {
+			return p == param
+		}
+		fa, isFA := x.X.(*ssa.FieldAddr)
+		if !isFA {
+			return true
+		}
+		// latest store into the same field of the same object that dominates `at`
+		var last *ssa.Store
+		allInstrs(x.Parent(), func(i ssa.Instruction) {
+			st, ok := i.(*ssa.Store)
+			if !ok {
+				return
+			}
+			sa, ok := st.Addr.(*ssa.FieldAddr)
+			if !ok || sa.Field != fa.Field || sa.X != fa.X || !instrBefore(st, at) {
+				return
+			}
+			if last == nil || instrBefore(last, st) {
+				last = st
+			}
+		})
+		if last == nil {
+			return true
+		}
+		return sliceHoldsParamAt(last.Val, param, last, depth+1)
+	}
+	return true
+}
+
+// instrBefore: a executes before b on every path that reaches b (a's block strictly dominates b's, or both
+// are in one block and a comes first).
+func instrBefore(a, b ssa.Instruction) bool {
+	if a.Block() == b.Block() {
+		for _, i := range a.Block().Instrs {
+			if i == a {
+				return a != b
+			}
+			if i == b {
+				return false
+			}
+		}
+		return false
+	}
+	return a.Block().Dominates(b.Block())
 }
 
 func signedAccumulatorRule(P *Program, R *Report) {
@@ -398,6 +499,51 @@ func verifiedMemoRule(P *Program, R *Report) {
 			R.decide(rule, kELVerify+":memo-after-tests", "Verify sets the memo only after the hash tests", r.Holds, r.Path, P.Pos(st.Pos()))
 		}
 	}
+	// FlattenEventLists concatenates lists the caller hands in: the result may be pre-marked only on the strength of
+	// the pieces' own memos and a hash test of every junction - never unconditionally (a dropped event between two
+	// pieces, or a piece of another chain, would otherwise pass Verify on the tail hash alone).
+	if fn := mustFunc(P, R, rule, "revocation.FlattenEventLists"); fn != nil {
+		n := 0
+		for _, sk := range sinksOf(fn) {
+			if !strings.HasSuffix(sk.target, "revocation.EventList.verified") && sk.target != elD+".verified" {
+				continue
+			}
+			n++
+			_, isConst := sk.val.(*ssa.Const)
+			junction, pieces := false, false
+			// data dependence, and - the memo is a flag cleared under tests - the branch conditions that decide
+			// which value a phi of the flag takes (every branch below the phi's immediate dominator)
+			roots := map[ssa.Value]bool{sk.val: true}
+			for d := range deps(P, sk.val) {
+				phi, isPhi := d.(*ssa.Phi)
+				if !isPhi || phi.Block().Idom() == nil {
+					continue
+				}
+				for _, b := range fn.Blocks {
+					if iff, isIf := b.Instrs[len(b.Instrs)-1].(*ssa.If); isIf && phi.Block().Idom().Dominates(b) {
+						roots[iff.Cond] = true
+					}
+				}
+			}
+			all := map[ssa.Value]bool{}
+			for r := range roots {
+				for d := range deps(P, r) {
+					all[d] = true
+				}
+			}
+			for d := range all {
+				if c, ok := d.(*ssa.Call); ok && hashEqualsFn(P) != nil && c.Call.StaticCallee() == hashEqualsFn(P) {
+					junction = true
+				}
+				if strings.HasSuffix(desc(d), ".verified") {
+					pieces = true
+				}
+			}
+			ok := !isConst && junction && pieces
+			R.decide(rule, "revocation.FlattenEventLists:memo-from-pieces-and-junctions", "the flattened list is pre-marked as verified only if every piece was and every junction passed the hash test (the stored value depends on the pieces' memos and on hashEquals of a junction; it is not a constant)", ok, fmt.Sprintf("stored value %s: constant=%v junction-hash=%v pieces-memo=%v", desc(sk.val), isConst, junction, pieces), P.Pos(fn.Pos()))
+		}
+		R.decide(rule, "revocation.FlattenEventLists:memo-stores", "FlattenEventLists' store of the memo was found (>= 1; if it no longer sets it, the setters obligation above says so)", n >= 1, fmt.Sprintf("%d", n), P.Pos(fn.Pos()))
+	}
 	if fn := mustFunc(P, R, rule, kELUncomp); fn != nil {
 		ev := litFieldStores(fn, "new:revocation.Event")
 		idx := ""
@@ -566,7 +712,6 @@ func decodedProductRule(P *Program, R *Report, rule string) {
 	})
 	R.decide(rule, kELUncomp+":product-all", "every decoded event's E is multiplied into the product (loop over all indices from 0)", okMul, detail, P.Pos(fn.Pos()))
 }
-
 
 // constInAllCallers: v is the integer constant want, or a parameter of fn that every (static) caller binds to it,
 // transitively up to three levels.
